@@ -158,7 +158,7 @@ class Application:
 
         try:
             request_text = await http_request.text()
-        except UnicodeDecodeError as e:
+        except (UnicodeDecodeError, LookupError) as e:  # LookupError: the charset parameter names no known encoding
             raise web.HTTPBadRequest() from e
 
         response = await dispatcher.dispatch(request_text, context=http_request)
